@@ -179,6 +179,15 @@ Pages07 == {<<H("A:"), u1, H(" B:"), u2>> : u1 \in Uses, u2 \in Uses}
       \cup {<<Each("x", Var("xs"), <<u, H(";")>>, NoElse, 1)>> : u \in {Comp(Alias("echo"), <<>>, <<>>, 1), Comp(Alias("echo"), <<Arg("z", IntL(1))>>, <<>>, 1)}}
       \cup {<<Each("x", Var("xs"), <<Comp(Alias("echo"), <<>>, <<>>, 1), If(<<Br(Dot(Var("loop"), "first"), <<Comp(Alias("echo"), <<>>, <<>>, 1)>>)>>, NoElse, 1)>>, NoElse, 1)>>,
             <<For(Assign("x", IntL(0), 1), Bin("<", Var("x"), IntL(3)), Post("++", Var("x")), <<Each("y", Var("xs"), <<Comp(Alias("echo"), <<>>, <<>>, 1)>>, NoElse, 1)>>, NoElse, 1)>>}
+      \* arguments computed from a literal and something that changes from pass to pass: evaluated at the place of use, every time
+      \cup {<<Each("x", Var("xs"), <<H("["), Comp(Alias("plain"), <<Arg("name", Bin("+", StrL("N:"), Var("x")))>>, <<>>, 1),
+                                       Comp(Alias("two"), <<Arg("a", Bin("+", Dot(Var("loop"), "index"), IntL(1))), Arg("b", Bin("+", Var("x"), StrL("!"))),
+                                                            Arg("c", Tern(Dot(Var("loop"), "first"), IntL(1), IntL(2)))>>, <<>>, 1), H("]")>>, NoElse, 1)>>,
+            <<For(Assign("i", IntL(0), 1), Bin("<", Var("i"), IntL(3)), Post("++", Var("i")),
+                  <<Comp(Alias("two"), <<Arg("a", Bin("*", Var("i"), IntL(10))), Arg("b", Bin("-", IntL(1), Var("i"))), Arg("c", ArrL(<<IntL(7), Var("i")>>))>>, <<>>, 1), H(";")>>, NoElse, 1)>>,
+            <<Each("x", Var("xs"), <<Comp(Alias("def"), <<>>, <<Sl("", <<P(Bin("+", StrL("s:"), Var("x")))>>)>>, 1),
+                                     Comp(Alias("deep"), <<Arg("n", Bin("+", Dot(Var("loop"), "iter"), IntL(0))), Arg("user", ObjL(<<[key |-> "name", ex |-> Bin("+", StrL("u"), Var("x"))]>>)),
+                                                           Arg("list", ArrL(<<ObjL(<<[key |-> "a", ex |-> Bin("+", IntL(1), Dot(Var("loop"), "index"))]>>)>>))>>, <<>>, 1)>>, NoElse, 1)>>}
       \* white space between a use and the next {{ }} or directive is text of the page like any other (C05)
       \cup {<<H("["), u, H(" "), P(Var("who")), H("]")>> : u \in Uses}
       \cup {<<u, H("\n  "), If(<<Br(Var("yes"), <<H("y")>>)>>, NoElse, 1), H(" "), u>> : u \in Uses}
@@ -263,7 +272,7 @@ Dotted18 ==
                   [] n = "oops.tw" -> Tpl(NoUse, <<H("x"), P(Var("zz"))>>)],
     page |-> pg, d |-> Data07, tags |-> <<"c18", "name-ends-in-extension">>] : pg \in {"home", "list", "oops.tw"}}
 
-Cases == CASE Family = "c06" -> Good06 \cup Bad06
+Cases == CASE Family \in {"c06", "c06uselast", "c06usemid"} -> Good06 \cup Bad06
            [] Family = "c18dotted" -> Dotted18
            [] Family = "c04comp" -> Good04
            [] Family = "c07collide" -> Collide07
@@ -296,8 +305,17 @@ Enc(v) == CASE v.t = "int" -> [t |-> "int", b |-> v.ib, o |-> v.io]
             [] v.t = "obj" -> [t |-> "obj", v |-> [i \in 1..Len(v.ps) |-> [k |-> v.ps[i].pk, v |-> Enc(v.ps[i].pv)]]]
 EncData(bs) == [i \in 1..Len(bs) |-> [k |-> bs[i].n, v |-> Enc(bs[i].v)]]
 
+\* where a file's @use is written: before everything else, after everything else, or after the first statement (a page
+\* "that declares @use(L)" declares it wherever the directive stands)
+UsePos == "first"
+PosLast == "last"
+PosMid == "mid"
 FileSrc(f) == IF f.kind = "bad" THEN f.src
-              ELSE (IF f.use = NoUse THEN "" ELSE "@use(\"" \o Written(f.use) \o "\")") \o SrcSeq(f.body)
+              ELSE IF f.use = NoUse THEN SrcSeq(f.body)
+              ELSE LET u == "@use(\"" \o Written(f.use) \o "\")" IN
+                   CASE UsePos = "last" -> SrcSeq(f.body) \o u
+                     [] UsePos = "mid" /\ f.body # <<>> -> SrcSeq(<<f.body[1]>>) \o u \o SrcSeq(Tail(f.body))
+                     [] OTHER -> u \o SrcSeq(f.body)
 Files(t) == LET ns == SetToSeq(DOMAIN t) IN [i \in 1..Len(ns) |-> [name |-> ns[i], src |-> FileSrc(t[ns[i]])]]
 LoadExpect(t) == IF Faulty(t) = {} THEN [ok |-> TRUE, names |-> SetToSeq({n \in DOMAIN t : ~LinkFile(t, n).layout})]
                  ELSE [ok |-> FALSE, mentions |-> SetToSeq(UNION {{LinkFile(t, n).file, LinkFile(t, n).what} : n \in Faulty(t)})]
